@@ -41,7 +41,7 @@ pub fn spec() -> CheckSpec {
     ],
     real_components: "deno_graph builder, ModuleGraph::segment, walk, resolve_dependency",
     stub_components: "all seams simulated",
-    quick_cases: 2500,
+    quick_cases: 8000,
     thorough_cases: 120000,
     run_case,
     systematic: |_| 0,
